@@ -84,7 +84,9 @@ def tlc(workdir, module, cfg=None, workers=1, heap="3g", timeout=600, simulate=N
         seed=None, extra=(), deadlock=False, stack="64m", coverage=False):
     """Run TLC on workdir/module.tla with cfg (path relative to workdir).  Returns TlcResult."""
     meta = os.path.join(workdir, "meta-%s-%d" % (module, int(time.time() * 1000) % 10 ** 9))
-    cmd = ["java", "-XX:+UseParallelGC", "-Xmx" + heap, "-Xss" + stack, "-cp", JAR, "tlc2.TLC",
+    jtmp = os.path.join(workdir, "jtmp")   # TLC / SANY litter java.io.tmpdir (tlc-*, SANY*): keep that inside the scratch directory
+    os.makedirs(jtmp, exist_ok=True)
+    cmd = ["java", "-XX:+UseParallelGC", "-Xmx" + heap, "-Xss" + stack, "-Djava.io.tmpdir=" + jtmp, "-cp", JAR, "tlc2.TLC",
            "-metadir", meta, "-workers", str(workers)]
     if cfg:
         cmd += ["-config", cfg]
